@@ -29,6 +29,16 @@ time_t current_time = 0;
 
 int heart_beat_flag = 0;
 
+/* heart_beat_flag is set by the timer thread (heartbeat_timer_callback) and tested / cleared by the
+ * backend thread: every access has to be atomic, a plain int shared between threads is a data race. */
+#if defined(__GNUC__) || defined(__clang__)
+#define HEART_BEAT_FLAG_LOAD()    __atomic_load_n (&heart_beat_flag, __ATOMIC_ACQUIRE)
+#define HEART_BEAT_FLAG_STORE(v)  __atomic_store_n (&heart_beat_flag, (v), __ATOMIC_RELEASE)
+#else
+#define HEART_BEAT_FLAG_LOAD()    (*(volatile int *) &heart_beat_flag)
+#define HEART_BEAT_FLAG_STORE(v)  (*(volatile int *) &heart_beat_flag = (v))
+#endif
+
 object_t *current_heart_beat;
 
 static platform_timer_t heartbeat_timer = {0}; /* cross-platform heart beat timer */
@@ -57,7 +67,7 @@ static void call_heart_beat (void);
  */
 static void heartbeat_timer_callback(void) {
   async_runtime_t *reactor = get_async_runtime();
-  heart_beat_flag = 1;
+  HEART_BEAT_FLAG_STORE (1);
   if (reactor)
     async_runtime_wakeup(reactor);
 }
@@ -317,7 +327,7 @@ void backend () {
             }
         }
 
-      if (heart_beat_flag || has_pending_commands)
+      if (HEART_BEAT_FLAG_LOAD () || has_pending_commands)
         {
           /* When heart beat is active or commands pending, do not wait in poll */
           timeout.tv_sec = 0;
@@ -360,7 +370,7 @@ void backend () {
        * The heart_beat_flag is set in the heartbeat timer and cleared 
        * when call_heart_beat() is called.
        */
-      if (heart_beat_flag)
+      if (HEART_BEAT_FLAG_LOAD ())
         call_heart_beat ();
     }
   pop_context (&econ);
@@ -504,7 +514,7 @@ static float perc_hb_probes = 100.0;	/* decaying avge of how many complete */
 static void call_heart_beat () {
 
   object_t *ob;
-  heart_beat_flag = 0;
+  HEART_BEAT_FLAG_STORE (0);
   time (&current_time);
   opt_trace (TT_BACKEND|1, "tick: current_time=%u", current_time);
   current_interactive = 0;
@@ -515,7 +525,7 @@ static void call_heart_beat () {
       heart_beat_t *curr_hb;
       num_hb_calls++;
       heart_beat_index = 0;
-      while (!heart_beat_flag)
+      while (!HEART_BEAT_FLAG_LOAD ())
         {
           ob = (curr_hb = &heart_beats[heart_beat_index])->ob;
           /* is it time to do a heart beat ? */
